@@ -146,6 +146,18 @@ def session(rng, exp, role, K, nops, faults=0.0, header_bias=0.5):
     ops.append("pr")
     return ops
 
+def wrath_size_boundaries(rng, Case):
+    """Wrath server, one object: every boundary size — including the u32 values a 23-bit header cannot carry — through the typed helper
+    and through the Write wrapper, with the stream position checked after each"""
+    out = []
+    for sizes in (SIZESW, OVERSIZE):
+        K = rbytes(rng, 40)
+        ops = []
+        for sz in sizes:
+            ops += ["es:%d:%d" % (sz, pick(rng, OPS16, 16)), "pr", "ws:%d:%d:-" % (sz, pick(rng, OPS16, 16)), "pr"]
+        out.append(Case("hdr w s %s %s" % (K.hex(), " ".join(ops)), "wrath-server-size-boundaries", pyhdr.expected_line("w", "s", K, ops), dict(n=len(ops), nb=3)))
+    return out
+
 def cases(rng, Case, exps, n, maxops, kind_prefix="mixed", faults=0.08, long_every=5, special_key=None):
     """n sessions per (exp, role); every `long_every`-th one is long (crosses 256 bytes per direction)"""
     out = []
